@@ -203,6 +203,8 @@ struct VarInfo {
     /// anonymous record: field list (type cannot be written in source)
     anon: Option<Vec<(String, T)>>,
     live: bool,
+    /// a `const` item: readable (whole or by field), never assigned
+    is_const: bool,
 }
 
 fn vname(i: usize) -> String {
@@ -266,7 +268,7 @@ impl<'a> Gen<'a> {
     }
 
     fn new_var(&mut self, ty: T, anon: Option<Vec<(String, T)>>) -> usize {
-        self.vars.push(VarInfo { ty, anon, live: true });
+        self.vars.push(VarInfo { ty, anon, live: true, is_const: false });
         self.vars.len() - 1
     }
 
@@ -606,6 +608,9 @@ impl<'a> Gen<'a> {
             self.kinds.insert("anon-record");
         } else if r < 52 {
             // mutate through a field path, or the whole variable
+            if self.vars[v].is_const {
+                return;
+            }
             let ps = self.paths(v, 3);
             if !ps.is_empty() && self.p.chance(4, 5) {
                 let (p, t) = self.p.pick(&ps).clone();
@@ -1140,6 +1145,8 @@ fn spec_block(ss: &[S], args: &Args, out: &mut Vec<String>) {
 }
 
 pub struct Program {
+    /// `const v{i}: T = init;` (constants are variables 0..n of the program)
+    pub consts: Vec<(usize, String, E)>,
     pub env: Env,
     pub helpers: Vec<String>,
     pub body: Vec<S>,
@@ -1152,6 +1159,20 @@ pub fn gen_program(p: &mut Prng) -> Program {
     let env = gen_env(p, n, &o);
     let mut g = Gen { p, env, vars: vec![], helpers: vec![], kinds: Default::default(), fresh: 0, closed: false };
     let mut body = vec![];
+    // constants: closed initialisers, read whole or by field, never assigned
+    let mut consts = vec![];
+    let nc = g.p.below(3);
+    for _ in 0..nc {
+        let t = g.pick_type();
+        g.closed = true;
+        let e = g.build0(&t, 2);
+        g.closed = false;
+        let ann = t.src(&g.env);
+        let v = g.new_var(t, None);
+        g.vars[v].is_const = true;
+        g.kinds.insert("const-item");
+        consts.push((v, ann, e));
+    }
     let n = 6 + g.p.below(10);
     for _ in 0..n {
         g.stmt(2, &mut body);
@@ -1160,11 +1181,17 @@ pub fn gen_program(p: &mut Prng) -> Program {
         body.extend(g.emit_var(v));
     }
     let _ = g.fresh;
-    Program { env: g.env, helpers: g.helpers, body, kinds: g.kinds.into_iter().collect() }
+    Program { consts, env: g.env, helpers: g.helpers, body, kinds: g.kinds.into_iter().collect() }
 }
 
 pub fn source(pr: &Program) -> String {
     let mut s = decl_src(&pr.env);
+    {
+        let mut src = Src { env: &pr.env, fresh: 0 };
+        for (v, ann, e) in &pr.consts {
+            s += &format!("const {}: {ann} = {};\n", vname(*v), src.e(e, None));
+        }
+    }
     for h in &pr.helpers {
         s += h;
         s += "\n";
@@ -1179,8 +1206,11 @@ pub fn source(pr: &Program) -> String {
 }
 
 pub fn spec(pr: &Program, args: &Args) -> String {
+    // constants are evaluated once, before `main`: plain bindings in the spec
+    let mut all: Vec<S> = pr.consts.iter().map(|(v, _, e)| S::Let(*v, None, e.clone())).collect();
+    all.extend(pr.body.iter().cloned());
     let mut out = vec![];
-    spec_block(&pr.body, args, &mut out);
+    spec_block(&all, args, &mut out);
     out.join(" ")
 }
 
@@ -1209,7 +1239,11 @@ pub fn gen_case(seed: u64, idx: u64) -> Case {
     let mut p = Prng::for_case(seed ^ 0xC02B, idx);
     let pr = gen_program(&mut p);
     let script = source(&pr);
-    let args: Vec<Args> = (0..3).map(|_| gen_args(&mut p)).collect();
+    // a list inside a constant is one shared storage for the life of the
+    // package: pushes made during one call of `main` are seen by the next. The
+    // spec evaluates one call from fresh constants, so such scripts run once.
+    let runs = if pr.consts.is_empty() { 3 } else { 1 };
+    let args: Vec<Args> = (0..runs).map(|_| gen_args(&mut p)).collect();
     // the spec text depends on the arguments (they are substituted)
     let spec = args.iter().map(|a| spec(&pr, a)).collect::<Vec<_>>().join("\n");
     Case { script, spec, args, sig: pr.kinds.join("+") }
